@@ -22,6 +22,10 @@ VARIABLES l,        \* next line
           ghost,    \* node -> member list rebuilt from its events
           gcase     \* replay case the ghost belongs to (0 in simulations)
 
+\* Exercise statistics (how many steps made a predicate's antecedent true, and how many
+\* distinct step classes) are kept in TLC registers, not in the state: one worker, linear trace.
+Reg(i) == 100 + i
+
 tvars == <<l, ghost, gcase>>
 
 SetOf(s) == {s[i] : i \in DOMAIN s}
@@ -75,16 +79,23 @@ GhostAfter(e) ==
     [] e.ev = "StrayEvent" /\ Valid(e) -> With(ghost, e.n, ApplyEvents(ghost[e.n], e.events, 1))
     [] OTHER                        -> Keep(e)
 
-TInit == l = 1 /\ ghost = << >> /\ gcase = -1
+TInit == /\ l = 1 /\ ghost = << >> /\ gcase = -1
+         /\ \A i \in DOMAIN StepProps : TLCSet(Reg(i), <<0, {}>>)
 
 TStep == /\ l <= Len(Trace)
          /\ LET e == Norm(Trace[l]) IN
               /\ Judge(e)
               /\ ghost' = GhostAfter(e)
               /\ gcase' = e.case
+              /\ \A i \in DOMAIN StepProps :
+                    IF StepAnte(StepProps[i], e)
+                    THEN TLCSet(Reg(i), <<TLCGet(Reg(i))[1] + 1, TLCGet(Reg(i))[2] \cup {StepClass(e)}>>)
+                    ELSE TRUE
          /\ l' = l + 1
 
 TDone == /\ l = Len(Trace) + 1
+         /\ \A i \in DOMAIN StepProps :
+               PrintT(<<"STAT", StepProps[i], TLCGet(Reg(i))[1], Cardinality(TLCGet(Reg(i))[2])>>)
          /\ PrintT(<<"DONE", Len(Trace)>>)
          /\ l' = l + 1 /\ UNCHANGED <<ghost, gcase>>
 
